@@ -17,9 +17,6 @@ package utils
 //@   epilogue trigAt = upd(trigAt, trigN, e)
 //@   epilogue trigN = trigN + 1
 //@   ensures[C09,C15] trigN == old(trigN) + 1 && trigAt == upd(old(trigAt), old(trigN), e)
-//@   loop 1:
-//@     invariant 0 <= iter
-//@     decreases len(handlers) - iter
 
 //@ func NewEventHandlerPool() (res *EventHandlerPool)
 //@   ensures[C15] res != nil && res.pool != nil
